@@ -12,6 +12,8 @@ import (
 	"perun.network/go-perun/wire"
 	_ "perun.network/go-perun/client"
 	"verif/harness/internal/c05"
+	"verif/harness/internal/c07"
+	"verif/harness/internal/c08"
 	"verif/harness/internal/c15"
 	"verif/harness/internal/c17"
 	"verif/harness/internal/c18"
@@ -25,6 +27,9 @@ import (
 
 var drivers = map[string]func(seed int64, tier, out string){
 	"C05": c05.Run,
+	"C07": c07.RunC07,
+	"C12": c07.RunC12,
+	"C08": c08.Run,
 	"C15": c15.Run,
 	"C17": c17.Run,
 	"C18": c18.Run,
